@@ -112,6 +112,7 @@ def check_parser_paths(ctx, ex, species, cutoff, tag):
 
 
 def task_cutoff(ctx):
+    """Parser.forward lists a pair iff same molecule, both atoms real, i < j and |ri-rj|^2 < cutoff^2 (every in/out combination of the candidate pairs; symbolic coordinates and cutoff), with correct index maps and pair geometry."""
     fn = ctx.under_contract(BAS + ":Parser.forward")
     species = [[8, 1, 1], [1, 1, 0]] if ctx.tier == "quick" else [[8, 1, 1], [6, 1, 1]]
     cutoff = real("cutoff")
